@@ -415,6 +415,26 @@ func c16DispatchPart(t *testing.T, rep *vfReport) {
 		}
 	}
 done:
+	// a request without a statement list is refused before anything else is looked at
+	{
+		_, _, _, err := n0.S.Query(context.Background(), &proto.QueryRequest{Level: proto.ConsistencyLevel_NONE})
+		out := "served"
+		if errors.Is(err, ErrInvalidRequest) {
+			out = "err:invalidrequest"
+		} else if err != nil {
+			out = c16Canon(err)
+		}
+		ops, impl = append(ops, "querynil"), append(impl, out)
+		_, _, _, err = n0.S.Request(context.Background(), &proto.ExecuteQueryRequest{Level: proto.ConsistencyLevel_NONE})
+		out = "served"
+		if errors.Is(err, ErrInvalidRequest) {
+			out = "err:invalidrequest"
+		} else if err != nil {
+			out = c16Canon(err)
+		}
+		ops, impl = append(ops, "requestnil"), append(impl, out)
+		rep.Count("dispatch:nil-request")
+	}
 	rep.vfCompare("readlevel", ops, impl, nil)
 }
 
